@@ -423,7 +423,13 @@ func (ctrler *GovCtrler) applyProposals(height int64) ([]abytes.HexBytes, xerror
 						ctrler.logger.Error("Apply proposal", "error", err, "option", string(prop.MajorOption.Option()))
 						return xerrors.From(err)
 					}
-					ctrlertypes.MergeGovParams(&ctrler.GovParams, newGovParams)
+					// if another proposal has already been applied in this block,
+					// its (not yet committed) result is the base of the merge.
+					baseGovParams := &ctrler.GovParams
+					if ctrler.newGovParams != nil {
+						baseGovParams = ctrler.newGovParams
+					}
+					ctrlertypes.MergeGovParams(baseGovParams, newGovParams)
 					if xerr := ctrler.paramsLedger.SetFinality(newGovParams); xerr != nil {
 						ctrler.logger.Error("Apply proposal", "error", xerr, "newGovParams", newGovParams)
 						return xerr
